@@ -136,6 +136,31 @@ def auto_job(job):
     ny = len(np.asarray(args[1]).reshape(-1))
     viol = out['violations']
 
+    # (vi) boundary conditions / integral constraints given in the DSL: every par_<name> of residual k must be read from
+    # the slot that parnames assigns to <name> (textual, concrete)
+    import re as _re
+    slot_of = {v.split('/')[-1]: k for k, v in parnames.items()}
+    flat = _re.sub(r'&\s*\n\s*&?', '', src)
+    for kind_, arr_, dsl in (('bcnd', 'fb', job.get('kw', {}).get('boundary_conditions') or []),
+                             ('icnd', 'fi', job.get('kw', {}).get('integral_constraints') or [])):
+        m_ = _re.search(rf'subroutine {kind_}\b.*?end subroutine {kind_}', flat, flags=_re.S | _re.I)
+        body = m_.group(0) if m_ else ''
+        for k_, expr_ in enumerate(dsl, start=1):
+            line = _re.search(rf"^\s*{arr_}\({k_}\)\s*=\s*(.*)$", body, flags=_re.M | _re.I)
+            tally.obligations += 1
+            if line is None:
+                tally.sat += 1
+                viol.append(dict(kind='bvp-dsl', what=f"{kind_}: residual {k_} ({expr_}) is missing from the exported source"))
+                continue
+            used = sorted({int(i) for i in _re.findall(r"args\((\d+)\)", line.group(1))})
+            expected = sorted({slot_of.get(p_, -1) for p_ in _re.findall(r"\bpar_(\w+)", expr_)})
+            if used != expected:
+                tally.sat += 1
+                viol.append(dict(kind='bvp-dsl', what=f"{kind_} residual {k_} `{expr_}` reads PAR{used}, but parnames keeps "
+                                                      f"these parameters in PAR{expected}"))
+            else:
+                tally.unsat += 1
+
     # (iv) slots ---------------------------------------------------------------------------------------
     slots = sorted(parnames)
     if any(10 <= s_ <= 14 for s_ in slots):
@@ -338,11 +363,19 @@ def run(tier='quick', seed=0, only=None, verbose=False):
         bounds=dict(parameters='2..22 per operator (+ edge weights), crossing slots 9/15', states='3',
                     scenarios='default c.ivp (+ auto_constants in thorough)'),
         stubs=['f2py replaced by gfortran + ctypes stand-in (harness); DFDU/DFDP assumed zero-initialised by the caller'],
-        assumptions=['reals for floats', 'auto-07p itself is not run', 'BCND/ICND DSL beyond slot consistency outside'])
+        assumptions=['reals for floats', 'auto-07p itself is not run', 'BCND/ICND DSL: only the slots read by par_<name> tokens are checked (textual)'])
     progs = fam_auto(seed, 8 if tier == 'quick' else 64)
     jobs = [dict(key=k, spec=s) for k, s in progs]
     if tier == 'thorough':
         jobs += [dict(key=k + '|scenarios', spec=s, kw=dict(auto_constants=('eq', 'lc'))) for k, s in progs[:8]]
+    # boundary-value export with DSL residuals that name parameters on both sides of the reserved slots
+    for k, s in progs:
+        npar = int(k.split('npar=')[1]) if 'npar=' in k else 0
+        if npar >= 10:
+            bcs = [f"u0_x - par_p{npar - 1}*u1_z", "u1_x - par_p1", f"u0_z - par_p9 - par_p{npar - 2}"]
+            ics = [f"u_z - par_p{npar - 3}", "u_x*par_p0 - par_p8"]
+            jobs.append(dict(key=k + '|bvp', spec=s, kw=dict(auto_constants=('bvp',), boundary_conditions=bcs,
+                                                            integral_constraints=ics)))
     if only:
         jobs = [j for j in jobs if only in j['key']]
     for job, outc in runner.run_jobs(auto_job, jobs, timeout=600):
